@@ -322,16 +322,58 @@ func checkBidStrategy(p *core.Prog, r *core.Report, ds *core.Describer, rel stri
 		hasOffset := sd.Any(func(x *core.VD) bool { return x.IsCall("big.Int.Add") && x.MentionsField("Offset") })
 		hasFactor := sd.Any(func(x *core.VD) bool { return x.IsCall("big.Int.Mul") && x.MentionsField("Factor") })
 		hasDiv := sd.Any(func(x *core.VD) bool { return x.IsCall("big.Int.Div") && x.MentionsCall("big.NewInt") })
-		r.Check(hasBase && hasOffset && hasFactor && hasDiv, "C09.c", sbase+"|score", p.Pos(sl.Alloc.Pos()), "score = value (+ Offset) (x Factor / 100)", "the score is not value + Offset, times Factor / 100: "+sd.String())
 		// order: the multiplication's operand contains the addition (add then multiply)
 		order := sd.Any(func(x *core.VD) bool {
 			return x.IsCall("big.Int.Mul") && x.Any(func(y *core.VD) bool { return y.IsCall("big.Int.Add") })
 		})
-		r.Check(order, "C09.c", sbase+"|score-order", p.Pos(sl.Alloc.Pos()), "the offset is added before the factor is applied", "the factor is not applied to the offset-adjusted value")
 		// builder config looked up by the bid's builder
 		cfgOK := sd.Any(func(x *core.VD) bool {
 			return x.Kind == "lookup" && x.Args[1].MentionsCall("VersionedSignedBuilderBid.Builder")
 		})
+		// the same computed in place, in a number the function owns: score := new(big.Int).Set(value), then
+		// score.Add(score, Offset), score.Mul(score, Factor), score.Div(score, 100) — the steps are the calls whose
+		// destination and first operand are that number
+		if sd.IsCall("big.Int.Set") && !hasOffset && !hasFactor {
+			var add, mul, div *ssa.Call
+			core.EachInstr(setter, func(in ssa.Instruction) {
+				c, ok := in.(*ssa.Call)
+				if !ok || c.Call.StaticCallee() == nil || len(c.Call.Args) != 3 || c.Call.Args[0] != sv || c.Call.Args[1] != sv {
+					return
+				}
+				od := ds.D(c.Call.Args[2])
+				switch c.Call.StaticCallee().Name() {
+				case "Add":
+					if od.MentionsField("Offset") {
+						add = c
+					}
+				case "Mul":
+					if od.MentionsField("Factor") {
+						mul = c
+					}
+				case "Div":
+					if od.MentionsCall("big.NewInt") {
+						div = c
+					}
+				}
+				if od.Any(func(x *core.VD) bool {
+					return x.Kind == "lookup" && x.Args[1].MentionsCall("VersionedSignedBuilderBid.Builder")
+				}) {
+					cfgOK = true
+				}
+			})
+			after := func(a, b *ssa.Call) bool {
+				if a == nil || b == nil {
+					return false
+				}
+				fwd := core.PathQuery{Fn: setter, From: a, Target: func(x ssa.Instruction) bool { return x == ssa.Instruction(b) }}.Find() != nil
+				back := core.PathQuery{Fn: setter, From: b, Target: func(x ssa.Instruction) bool { return x == ssa.Instruction(a) }}.Find() != nil
+				return fwd && !back
+			}
+			hasOffset, hasFactor, hasDiv = add != nil, mul != nil, div != nil && after(mul, div)
+			order = after(add, mul)
+		}
+		r.Check(hasBase && hasOffset && hasFactor && hasDiv, "C09.c", sbase+"|score", p.Pos(sl.Alloc.Pos()), "score = value (+ Offset) (x Factor / 100)", "the score is not value + Offset, times Factor / 100: "+sd.String())
+		r.Check(order, "C09.c", sbase+"|score-order", p.Pos(sl.Alloc.Pos()), "the offset is added before the factor is applied", "the factor is not applied to the offset-adjusted value")
 		r.Check(cfgOK, "C09.c", sbase+"|builder-config", p.Pos(sl.Alloc.Pos()), "the builder configuration is looked up by the bid's own builder key", "the builder configuration applied to the score is not looked up by the bid's builder")
 		if bv := sl.Fields["Bid"]; bv != nil {
 			r.Check(ds.D(bv).HasFieldSuffix("bid"), "C09.d", sbase+"|participation-bid", p.Pos(sl.Alloc.Pos()), "the participation records the response's bid", "the participation records "+ds.D(bv).String())
